@@ -1640,6 +1640,20 @@ class ShortcutNode(ListNode):
             return collections.deque([last])
         return collections.deque()
 
+    @staticmethod
+    def _get_last_value_node(node):
+        """
+        The last value node of what precedes a shortcut: a value, a shortcut, a run of shortcuts, or a geometry.
+
+        :rtype: ValueNode
+        """
+        while not isinstance(node, ValueNode):
+            if isinstance(node, GeometryTree):
+                node = list(node)[-1]
+            else:
+                node = node.nodes[-1]
+        return node
+
     def _expand_repeat(self, p):
         self._nodes = self._get_last_node(p)
         repeat = p[1]
@@ -1650,13 +1664,7 @@ class ShortcutNode(ListNode):
         except ValueError:
             repeat_num = 1
             self._num_node = ValueNode(None, int, never_pad=True)
-        if isinstance(p[0], ValueNode):
-            last_val = p[0]
-        else:
-            if isinstance(p[0], GeometryTree):
-                last_val = list(p[0])[-1]
-            else:
-                last_val = p[0].nodes[-1]
+        last_val = self._get_last_value_node(p[0])
         if last_val.value is None:
             raise ValueError(f"Repeat cannot follow a jump. Given: {list(p)}")
         self._nodes += [copy.deepcopy(last_val) for i in range(repeat_num)]
@@ -1666,10 +1674,7 @@ class ShortcutNode(ListNode):
         mult_str = p[1].lower().replace("m", "")
         mult_val = fortran_float(mult_str)
         self._num_node = ValueNode(mult_str, float, never_pad=True)
-        if isinstance(p[0], ValueNode):
-            last_val = self.nodes[-1]
-        else:
-            last_val = p[0].nodes[-1]
+        last_val = self._get_last_value_node(p[0])
         if last_val.value is None:
             raise ValueError(f"Multiply cannot follow a jump. Given: {list(p)}")
         self._nodes.append(copy.deepcopy(last_val))
@@ -1699,10 +1704,7 @@ class ShortcutNode(ListNode):
                 begin = term.value
             end = p.number_phrase.value
         else:
-            if isinstance(p[0], ListNode):
-                begin = p[0].nodes[-1].value
-            else:
-                begin = p[0].value
+            begin = self._get_last_value_node(p[0]).value
             end = p.number_phrase.value
         self._nodes = self._get_last_node(p)
         if begin is None:
